@@ -47,9 +47,11 @@ class Conv:
 
     def starttls(self, injected=b""):
         """a STARTTLS that is meant to succeed: what follows is sent inside TLS"""
+        if self.tls_at is not None or self.cfg.get("tls") != "avail":
+            self.add(b"STARTTLS\r\n")      # no upgrade will happen here: nothing is "injected"
+            return
         self.add(b"STARTTLS\r\n" + injected, HS="1")
-        if self.tls_at is None:
-            self.tls_at = len(self.lines)
+        self.tls_at = len(self.lines)
 
     def case(self, seg="line", rng=None, end="eof", cut=None):
         plain = self.lines if self.tls_at is None else self.lines[:self.tls_at]
